@@ -913,6 +913,15 @@ func execOp(p *Prepared) (out *Outcome) {
 		call(p, rd, out)
 	}()
 	out.Pts = zzsimrt.EndOp()
+	if addr, ok := zzsimrt.TakeChildFault(); ok && out.Panic == "" {
+		// a memory fault inside a goroutine the library started during this call
+		if p.G.Contains(addr) {
+			out.Panic = "fault: write to caller-supplied (read-only) memory (in a goroutine started by the library)"
+			out.Fault = true
+		} else {
+			out.Panic = "fault: invalid memory access outside the arguments (in a goroutine started by the library)"
+		}
+	}
 	if !zzsimrt.BatonTopLevelOnly() && zzsimrt.ChildOverrun() && out.Panic == "" {
 		out.Budget, out.Panic = true, "step budget exceeded (in a goroutine started by the library)"
 	}
